@@ -18,6 +18,7 @@ package main
 import (
 	"bytes"
 	"context"
+	"errors"
 	"fmt"
 	"runtime"
 	"strconv"
@@ -71,10 +72,14 @@ type world struct {
 	pool     isaac.BallotPool // the real TempPool
 	gp       *gatedPool
 	bb       *isaacstates.DefaultBallotBroadcaster
-	rbb      *recBroadcaster // what States and the handlers are wired to: records the ballots handed to Broadcast
-	slog     []logEnt        // local ballots produced for voting / sending ("signed"), in order
-	remoteVP base.Voteproof  // ACCEPT voteproof instance of the remote nodes (carried by their ballots)
-	localVP  base.Voteproof  // the local node's own instance of the same voteproof
+	tp       *isaacdatabase.TempPool
+	faulted  atomic.Bool      // the pool fails from now on
+	inject   bool             // fault = errors injected by the wrapper (else: the real TempPool was closed)
+	snap     map[uint64]int64 // pool facts of the watched keys at the moment of the fault
+	rbb      *recBroadcaster  // what States and the handlers are wired to: records the ballots handed to Broadcast
+	slog     []logEnt         // local ballots produced for voting / sending ("signed"), in order
+	remoteVP base.Voteproof   // ACCEPT voteproof instance of the remote nodes (carried by their ballots)
+	localVP  base.Voteproof   // the local node's own instance of the same voteproof
 	st       *isaacstates.States
 	mimic    func(base.Ballot)
 	mu       sync.Mutex
@@ -140,7 +145,19 @@ func (w *world) noteSigned(bl base.Ballot) {
 type gatedPool struct {
 	w    *world
 	real isaac.BallotPool
+	// Close of the real TempPool is kept apart from calls in flight: TempPool.Ballot dereferences db.encs after
+	// db.st() and panics (nil pointer) when Close runs in between -- a robustness defect of isaac/database/pool.go
+	// seen with this harness, outside C08; here only the behaviour of an already closed pool is wanted
+	cl sync.RWMutex
 }
+
+func (g *gatedPool) closeReal() {
+	g.cl.Lock()
+	defer g.cl.Unlock()
+	_ = g.w.tp.Close()
+}
+
+var errPoolFault = errors.New("verif: pool fault")
 
 func (g *gatedPool) Ballot(point base.Point, stage base.Stage, sc bool) (base.Ballot, bool, error) {
 	first := false
@@ -150,10 +167,16 @@ func (g *gatedPool) Ballot(point base.Point, stage base.Stage, sc bool) (base.Ba
 		g.w.gate("lookup")
 	}
 	g.w.yield()
+	g.cl.RLock()
 	bl, found, err := g.real.Ballot(point, stage, sc)
+	g.cl.RUnlock()
+	if g.w.faulted.Load() && g.w.inject {
+		bl, found, err = nil, false, errPoolFault
+	}
 	if first {
 		if t := g.w.thread(); t != nil {
 			t.found = found
+			t.lookErr = err != nil
 		}
 		g.w.gate("looked")
 	}
@@ -162,6 +185,11 @@ func (g *gatedPool) Ballot(point base.Point, stage base.Stage, sc bool) (base.Ba
 
 func (g *gatedPool) SetBallot(bl base.Ballot) (bool, error) {
 	g.w.yield()
+	if g.w.faulted.Load() && g.w.inject {
+		return false, errPoolFault
+	}
+	g.cl.RLock()
+	defer g.cl.RUnlock()
 	return g.real.SetBallot(bl)
 }
 
@@ -172,6 +200,7 @@ type thread struct {
 	done    chan struct{}
 	looked  bool
 	found   bool
+	lookErr bool
 	noted   *logEnt
 }
 
@@ -238,6 +267,7 @@ func newWorld(seed uint64) *world {
 		panic(err)
 	}
 	w.pool = p
+	w.tp = p
 	// every node builds the ACCEPT voteproof of the previous block from its own ballotbox: same majority,
 	// another instance (voteproof ids are per instance)
 	mkvp := func() base.Voteproof {
@@ -365,6 +395,12 @@ type stepObs struct {
 }
 
 func (w *world) poolFact(k keyT) int64 {
+	if w.faulted.Load() { // nothing can be written any more: the content at the moment of the fault
+		if f, ok := w.snap[k.id()]; ok {
+			return f
+		}
+		return -1
+	}
 	bl, found, err := w.pool.Ballot(k.point(), base.StageINIT, k.SC)
 	if err != nil || !found {
 		return -1
@@ -373,6 +409,7 @@ func (w *world) poolFact(k keyT) int64 {
 }
 
 type replayT struct {
+	Fault    string       `json:"fault,omitempty"` // "close": the real TempPool is closed, "inject": the wrapper returns errors; at schedule element -1
 	Mode     string       `json:"mode"`
 	Threads  []threadSpec `json:"threads,omitempty"`
 	Schedule []int        `json:"schedule,omitempty"`
@@ -399,8 +436,14 @@ func equivocations(log []logEnt) []string {
 // runSchedule drives the threads through the schedule (a sequence of thread indexes; each occurrence
 // executes that thread's next atomic step) on the real code and renders the model case.
 func runSchedule(res *vh.Result, cases *vh.Cases, seed uint64, specs []threadSpec, schedule []int, tag string) {
+	runScheduleF(res, cases, seed, specs, schedule, "", tag)
+}
+
+// a schedule element -1 makes the pool fail from then on (fault = "close" | "inject")
+func runScheduleF(res *vh.Result, cases *vh.Cases, seed uint64, specs []threadSpec, schedule []int, fault string, tag string) {
 	w := newWorld(seed)
-	rp := replayT{Mode: "forced", Threads: specs, Schedule: schedule}
+	w.inject = fault == "inject"
+	rp := replayT{Mode: "forced", Threads: specs, Schedule: schedule, Fault: fault}
 	keys := []keyT{}
 	seenKey := map[uint64]bool{}
 	for _, ts := range specs {
@@ -438,7 +481,7 @@ func runSchedule(res *vh.Result, cases *vh.Cases, seed uint64, specs []threadSpe
 				h := w.handlerFor(ts.Key, ts.Fact)
 				hbl, err := h.MakeINITBallot(context.Background(), ts.Key.point(), prevOf(ts.Fact), w.localVP)
 				if err != nil {
-					panic(err)
+					return // the pool lookup failed: the handler gives up (moves to broken in the real node)
 				}
 				_, _ = h.Vote(hbl)
 				w.gate("set")
@@ -463,9 +506,23 @@ func runSchedule(res *vh.Result, cases *vh.Cases, seed uint64, specs []threadSpe
 	}
 	at := make([]string, len(specs)) // gate each thread is parked at
 	for _, i := range schedule {
+		if i < 0 {
+			if !w.faulted.Load() {
+				w.snap = map[uint64]int64{}
+				for _, k := range keys {
+					w.snap[k.id()] = w.poolFact(k)
+				}
+				if !w.inject {
+					w.gp.closeReal()
+				}
+				w.faulted.Store(true)
+			}
+			continue
+		}
 		if finished[i] {
 			continue
 		}
+		faultedNow := w.faulted.Load()
 		if !started[i] {
 			started[i] = true
 			start(i)
@@ -491,17 +548,28 @@ func runSchedule(res *vh.Result, cases *vh.Cases, seed uint64, specs []threadSpe
 		tid := vh.N(uint64(i))
 		switch gateName {
 		case "lookup":
+			if ths[i].lookErr {
+				coq = fmt.Sprintf("ALookupErr %s", tid)
+				break
+			}
 			f := ths[i].found
 			ob.Found = &f
 			coq = fmt.Sprintf("ALookup %s %s", tid, vh.N(ts.Key.id()))
 		case "looked", "set":
+			bterm := fmt.Sprintf("(mkB %s %s %s)", vh.N(ts.Key.id()), vh.N(ts.Fact), vh.Bool(ts.Kind != "foreign"))
 			switch {
+			case gateName == "looked" && ths[i].lookErr:
+				coq = "" // the caller gave up after the failed lookup
 			case ts.Kind == "handler" && gateName == "looked":
 				coq = fmt.Sprintf("APrepare %s %s %s", tid, vh.N(ts.Key.id()), vh.N(ts.Fact)) // make (reuse or sign) + vote
+			case ts.Kind == "handler" && faultedNow:
+				coq = fmt.Sprintf("ASetPreparedErr %s", tid)
 			case ts.Kind == "handler":
 				coq = fmt.Sprintf("ASetPrepared %s", tid)
 			case gateName == "looked" && ths[i].found:
 				coq = "" // the mimic delivery ends here (the pool had a ballot): no model step
+			case faultedNow && ts.Kind != "foreign":
+				coq = fmt.Sprintf("ASetErr %s %s", tid, bterm) // the pool fails: Broadcast returns the error
 			default:
 				// the region sign + set under bb.l has run
 				coq = fmt.Sprintf("ASet %s (mkB %s %s %s)", tid, vh.N(ts.Key.id()), vh.N(ts.Fact), vh.Bool(ts.Kind != "foreign"))
@@ -647,6 +715,23 @@ func runFree(res *vh.Result, r *vh.Rand, seed uint64) {
 			}
 		}(g)
 	}
+	if r.Chance(1, 3) { // the pool fails somewhere in the middle (closed as when the node stops, or storage errors)
+		w.inject = r.Bool()
+		spins := r.Intn(400)
+		wg.Add(1)
+		go func() {
+			defer wg.Done()
+			for i := 0; i < spins; i++ {
+				runtime.Gosched()
+			}
+			if !w.inject {
+				w.gp.closeReal()
+			}
+			w.snap = map[uint64]int64{}
+			w.faulted.Store(true)
+		}()
+		res.Dist("free_with_pool_fault")
+	}
 	fin := make(chan struct{})
 	go func() { wg.Wait(); close(fin) }()
 	select {
@@ -679,7 +764,7 @@ func main() {
 	if o.Replay != "" {
 		var rp replayT
 		if err := vh.ReadReplay(o.Replay, &rp); err == nil && rp.Mode == "forced" && len(rp.Threads) > 0 {
-			runSchedule(res, cases, o.Seed, rp.Threads, rp.Schedule, "replay")
+			runScheduleF(res, cases, o.Seed, rp.Threads, rp.Schedule, rp.Fault, "replay")
 			fmt.Printf("replayed schedule %v; failures so far: %d\n", rp.Schedule, len(res.Failures))
 		}
 	}
@@ -690,6 +775,15 @@ func main() {
 	// handler prepares its own INIT ballot for the same point from its own instance of the voteproof
 	runSchedule(res, cases, o.Seed, []threadSpec{{"mimic", k0, 100, 0}, {"handler", k0, 200, 0}}, []int{0, 0, 0, 1, 1, 1, 1}, "corpus")
 	runSchedule(res, cases, o.Seed, []threadSpec{{"handler", k0, 100, 0}, {"handler", k0, 200, 0}}, []int{0, 0, 0, 0, 1, 1, 1, 1}, "corpus")
+	// pool faults: a local ballot for the point is pooled and sent; the pool fails (TempPool closed while the node
+	// stops / storage error); another ballot for the same point reaches Broadcast
+	for _, fk := range []string{"close", "inject"} {
+		runScheduleF(res, cases, o.Seed, []threadSpec{{"direct", k0, 100, 0}, {"direct", k0, 200, 0}}, []int{0, 0, -1, 1, 1}, fk, "corpus-fault")
+		runScheduleF(res, cases, o.Seed, []threadSpec{{"mimic", k0, 100, 0}, {"direct", k0, 200, 0}}, []int{0, 0, 0, -1, 1, 1}, fk, "corpus-fault")
+		runScheduleF(res, cases, o.Seed, []threadSpec{{"mimic", k0, 100, 0}, {"mimic", k0, 200, 1}}, []int{0, 0, 0, 1, 1, -1, 1}, fk, "corpus-fault")
+		runScheduleF(res, cases, o.Seed, []threadSpec{{"handler", k0, 100, 0}, {"handler", k0, 200, 0}}, []int{0, 0, 0, 0, 1, 1, -1, 1, 1}, fk, "corpus-fault")
+		runScheduleF(res, cases, o.Seed, []threadSpec{{"direct", k0, 100, 0}, {"mimic", k0, 200, 1}}, []int{0, 0, 1, -1, 1, 1}, fk, "corpus-fault")
+	}
 	// the witness of the theorem C08_ignore_set_result_refuted, always first
 	runSchedule(res, cases, o.Seed, []threadSpec{{"mimic", k0, 100, 0}, {"mimic", k0, 200, 1}}, []int{0, 1, 0, 1, 0, 1}, "corpus")
 	pairs := [][]threadSpec{
@@ -710,6 +804,10 @@ func main() {
 	for _, p := range pairs {
 		for _, sch := range interleavings([]int{p[0].steps(), p[1].steps()}) {
 			runSchedule(res, cases, o.Seed, p, sch, "pairs")
+			// the same interleaving with a pool fault at a random position
+			at := r.Intn(len(sch) + 1)
+			fs := append(append(append([]int(nil), sch[:at]...), -1), sch[at:]...)
+			runScheduleF(res, cases, o.Seed, p, fs, []string{"close", "inject"}[r.Intn(2)], "pairs-fault")
 		}
 	}
 	n3 := o.Pick(600, 12000)
@@ -741,7 +839,13 @@ func main() {
 			left[j]--
 			sch = append(sch, j)
 		}
-		runSchedule(res, cases, o.Seed, specs, sch, "random3")
+		if r.Chance(1, 3) {
+			at := r.Intn(len(sch) + 1)
+			fs := append(append(append([]int(nil), sch[:at]...), -1), sch[at:]...)
+			runScheduleF(res, cases, o.Seed, specs, fs, []string{"close", "inject"}[r.Intn(2)], "random3-fault")
+		} else {
+			runSchedule(res, cases, o.Seed, specs, sch, "random3")
+		}
 	}
 	nfree := 60
 	if o.Thorough() {
